@@ -181,9 +181,9 @@ def _(c):
     # normal: a fresh list holding NB; with caching on, a *separate* fresh list is memoised on a miss (C12)
     o = c.normal(when=hit, label="cached")
     r = o.fresh("<container>", "nbs")
-    o.set("elems", r, S.elems(S.memo_val(x, d, u, f)))
+    o.set("elems", r, nb)                                    # transparency: same answer as the recomputation ...
     o.result(VList(r, "Vertex"))
-    o.fact(S.elems(S.memo_val(x, d, u, f)) == nb)          # transparency: same answer as the recomputation
+    o.fact(S.elems(S.memo_val(x, d, u, f)) == nb)          # ... which is what the memo holds (I5 at this key)
     stats_monotone(o)
     o = c.normal(when=And(Not(hit), Not(baddir), Not(bad)), label="computed")
     r = o.fresh("<container>", "nbs")
